@@ -239,6 +239,6 @@ def check_deep(data: dict, lab: Labels) -> None:
     lab.nontrivial = True
 
 
-PARTS = [Part("trees", check_tree, strategy=st_case, quick=1200, thorough=60000),
+PARTS = [Part("trees", check_tree, strategy=st_case, quick=4800, thorough=200000),
          Part("deep", check_deep, enumerate=enum_deep,
               exhaustive_note="4 chain shapes x depth 2x (thorough: and 4x) the recursion limit")]
